@@ -133,6 +133,19 @@ func propC04(run *Run, n int) {
 					run.Count("setkeys:shared-identity")
 				}
 			}
+		case 7: // an object whose ONE key spells "<k1><the 8 hash-code bytes of v1><k2>" of another object {k1:v1, k2:v2}: the
+			// encodings that object hashing feeds to the hash function must not be confusable (keys are hashed, not
+			// concatenated raw)
+			if n, hs, ok := printableHashNumber(c.o); ok {
+				a = VArr(VObj("a", VNum(n), "b", VNum(2)))
+				b = VArr(VObj("a"+hs+"b", VNum(2)))
+				if r.Chance(1, 2) {
+					a, b = VArr(VObj("k", a)), VArr(VObj("k", b))
+				}
+				run.Count("objects:key-spelling-key-hash-key")
+			} else {
+				a, b = cfg.Pair(r)
+			}
 		case 6: // numbers at the boundary of the precision: one ulp apart, exactly eps apart, just beyond eps
 			a = cfg.Doc(r, 0)
 			if r.Chance(1, 3) {
@@ -156,6 +169,35 @@ func propC04(run *Run, n int) {
 			addC04ChainedTyped(run, r, cfg)
 		}
 	}
+}
+
+var printableHashCache = map[string][2]interface{}{}
+
+// printableHashNumber finds a small integer whose hash code (under the options) consists of printable ASCII bytes only,
+// so that it can be spelled inside an object key
+func printableHashNumber(o OptSet) (float64, string, bool) {
+	if v, ok := printableHashCache[o.Wire()]; ok {
+		return v[0].(float64), v[1].(string), v[1].(string) != ""
+	}
+	found, hs := 0.0, ""
+	safely(func() string {
+		for i := 0; i < 60000 && hs == ""; i++ {
+			h := jd.VerifHashCode(mustNode(VNum(float64(i)).Wire()), o.Go())
+			okb := true
+			for _, c := range h {
+				if c < 0x20 || c > 0x7e || c == '"' || c == '\\' {
+					okb = false
+					break
+				}
+			}
+			if okb {
+				found, hs = float64(i), string(h[:])
+			}
+		}
+		return ""
+	})
+	printableHashCache[o.Wire()] = [2]interface{}{found, hs}
+	return found, hs, hs != ""
 }
 
 // addC04Chained: Equals between documents that successive Patch calls returned (they may share backing arrays:
@@ -696,6 +738,12 @@ func propC03(run *Run, n int) {
 			}
 			addC03Case(run, t, joinHunks(sub))
 		}
+		if r.Chance(1, 12) {
+			// build-up: a hunk adds an array holding a container, a later hunk edits inside that container
+			t, hw := buildUpDiff(r)
+			run.Count("hunk:build-up-then-edit-inside")
+			addC03Case(run, t, hw)
+		}
 		if r.Chance(1, 10) {
 			// a CONTEXT-ONLY hunk (nothing removed, nothing added: an assertion about two neighbours; only the exported
 			// DiffElement fields can build it): it applies exactly when both context lines hold
@@ -719,6 +767,30 @@ func propC03(run *Run, n int) {
 			addC03Case(run, t, hw)
 		}
 	}
+}
+
+func buildUpDiff(r *Rng) (*Val, string) {
+	inner := VObj("tags", VArr(VStr("a")))
+	if r.Chance(1, 2) {
+		inner = VArr(VStr("a"))
+	}
+	added := VArr(inner)
+	var t *Val = VArr()
+	pre := ""
+	if r.Chance(1, 2) {
+		t, pre = VObj("k", VArr()), "K\"6b "
+	}
+	h1 := fmt.Sprintf("( s %sI0 | V | | %s | V )", pre, added.Wire())
+	var h2 string
+	if inner.K == KObj {
+		h2 = fmt.Sprintf("( s %sI0 I0 K\"74616773 I1 | \"61 | | \"62 | V )", pre)
+	} else {
+		h2 = fmt.Sprintf("( s %sI0 I0 I1 | \"61 | | \"62 | V )", pre)
+	}
+	if r.Chance(1, 3) {
+		h2 = strings.Replace(h2, "| V )", "| )", 1) // without the end-of-array marker
+	}
+	return t, joinHunks([]string{strings.Join(strings.Fields(h1), " "), strings.Join(strings.Fields(h2), " ")})
 }
 
 func contextOnlyHunk(r *Rng) (*Val, string) {
@@ -913,6 +985,26 @@ func addC03Case(run *Run, t *Val, dw string) {
 		Probe{Kind: "corr", Rel: "Patch = patchM", Line: fmt.Sprintf("patch %s %s", tw, dw), Want: out},
 		Probe{Kind: "oracle", Rel: "C03 Patch = reference interpreter of strict hunks (applies iff every expectation holds, changes only what the hunks say)", Line: fmt.Sprintf("c03 %s %s %s", tw, dw, out)},
 	)
+	// ONE diff value applied twice to fresh copies of the target: the second application must give what the first gave
+	// (applying a diff must not change it; "changes only what the hunks say" holds for every application)
+	if hunkCount(dw) > 1 {
+		twice := "ok"
+		res, _ := safely(func() string {
+			d := mustDiff(dw)
+			r1, e1 := mustNode(tw).Patch(d)
+			o1 := encOutcomeNode(r1, e1)
+			r2, e2 := mustNode(tw).Patch(d)
+			o2 := encOutcomeNode(r2, e2)
+			if untagWire(o1) != untagWire(o2) {
+				twice = "fail the same diff value applied a second time to a fresh copy of the target gives " + short(o2) + " instead of " + short(o1)
+			}
+			return "done"
+		})
+		if res == "panic" {
+			twice = "ok"
+		}
+		c.Probes = append(c.Probes, Probe{Kind: "direct", Rel: "C03 a diff value applies the same way every time (fresh target, same diff value)", Want: twice})
+	}
 	run.Count("outcome:" + strings.Fields(out)[0])
 	run.Count("hunks:" + sizeBucket(hunkCount(dw)))
 	run.Add(c)
@@ -934,6 +1026,31 @@ func propC08(run *Run, n int) {
 	for i := 0; i < n; i++ {
 		if i%25 == 0 {
 			addTypedTargetTies(run, r)
+		}
+		if i%30 == 0 {
+			// a keyed member holding a LIST that is edited in the middle: the nested hunk carries a before and an after
+			// context line that differ from each other; applied to the document it was made for and to a permutation
+			tags := VArr(VStr("a"), VStr("b"), VStr("d"), VStr("e"))
+			m1 := VObj("id", VNum(1), "tags", tags)
+			m2 := VObj("id", VNum(2), "tags", VArr(VStr("x")))
+			a := VArr(m2, m1)
+			b := a.Clone()
+			b.A[1].O["tags"] = VArr(VStr("a"), VStr("c"), VStr("d"), VStr("e"))
+			if r.Chance(1, 2) {
+				b.A[1].O["tags"] = VArr(VStr("a"), VStr("b"), VStr("c"), VStr("d"), VStr("e"))
+			}
+			_ = b
+			// (a hand-written hunk: under SetKeys `Diff` reads nested arrays as sets and never emits an index below a keyed member)
+			dw := "< ( s SK { \"6964 #3ff0000000000000 } K\"74616773 I1 | \"61 | \"62 | \"63 | \"64 ) >"
+			if r.Chance(1, 2) {
+				dw = "< ( s SK { \"6964 #3ff0000000000000 } K\"74616773 I2 | \"62 | | \"63 | \"64 ) >"
+			}
+			if r.Chance(1, 4) {
+				dw = strings.Replace(dw, "| \"64 )", "| \"65 )", 1) // a wrong after-context: must be rejected (or, as the code is, swallowed)
+			}
+			run.Count("keyed-member:nested-list-hunk-with-context")
+			addC08Case(run, "SetKeys(id)-nested-list", a, dw)
+			addC08Case(run, "SetKeys(id)-nested-list", VArr(m1.Clone(), m2.Clone()), dw)
 		}
 		c := choices[r.Intn(len(choices))]
 		cfg := c.cfg()
